@@ -118,6 +118,11 @@ def cases(tier):
     return out
 
 
+def interp_cases(tier):
+    """interpreted pass (NUMBA_DISABLE_JIT=1): the quadrature tables and one sparse block of faces"""
+    return [{"kind": "tables"}, {"kind": "faces", "block": 0, "nblocks": 300, "tier": "quick"}, {"kind": "tiling", "mesh": "icosa"}]
+
+
 def selftest_case(tier):
     return {"kind": "faces", "block": 1, "nblocks": 24, "tier": "quick"}
 
